@@ -476,10 +476,20 @@ def pp_func(f, m, types):
         head += " gibt ein T zurück, macht:"
     else:
         head += " gibt %s %s zurück, macht:" % (ein_akk(f["ret"]), _gname(f["ret"], g))
+    if f.get("forward") and g is None:
+        # declared here, defined after all declarations (pp_func_definition)
+        lines = [head[:-len(" macht:")], "wird später definiert", "und kann so benutzt werden:"]
+        lines.append('\t"%s"' % " ".join([f["name"]] + ["<%s>" % n for n, _, _ in ps]))
+        return lines
     lines = [head] + pp_block(f["body"], 1, m, types)
     lines.append("Und kann so benutzt werden:")
     lines.append('\t"%s"' % " ".join([f["name"]] + ["<%s>" % n for n, _, _ in ps]))
     return lines
+
+
+def pp_func_definition(f, m, types):
+    """the separate definition of a function that was declared with `wird später definiert`"""
+    return ["Die Funktion %s macht:" % f["name"]] + pp_block(f["body"], 1, m, types)
 
 
 def genericise(p, rng):
@@ -534,6 +544,9 @@ def pp_modules(p, minimal=False, lib="lib"):
         lines += _public(pp_stmt(g, 0, minimal, types))
     for f in p["funcs"]:
         lines += [""] + _public(pp_func(f, minimal, types)) + [""]
+    for f in p["funcs"]:
+        if f.get("forward") and f.get("generic") is None:
+            lines += [""] + pp_func_definition(f, minimal, types) + [""]
     main = ['Binde "Duden/Ausgabe" ein.', 'Binde "%s" ein.' % lib, ""]
     main += pp_block(p["globals"][k:], 0, minimal, types)
     main += pp_block(p["main"], 0, minimal, types)
@@ -548,6 +561,9 @@ def pp_program(p, minimal=False, types=None):
     lines += pp_block(p["globals"], 0, minimal, types)
     for f in p["funcs"]:
         lines += [""] + pp_func(f, minimal, types) + [""]
+    for f in p["funcs"]:
+        if f.get("forward") and f.get("generic") is None:
+            lines += [""] + pp_func_definition(f, minimal, types) + [""]
     lines += pp_block(p["main"], 0, minimal, types)
     return "\n".join(lines) + "\n"
 
@@ -1064,6 +1080,18 @@ class Gen:
             else:
                 a, b = ("int", r.below(4)), ("int", r.below(6))
                 step = None
+            if self.feat("for_types") and r.chance(0.35):
+                # end value and step size of another numeric type than the counter: compared / added in the counter's type
+                if t in ("Z", "B"):
+                    b = ("float", bits_of_float(r.choice([0.5, 1.5, 2.5, 3.0, 4.75])) + (2 ** 63 if t == "Z" and r.chance(0.3) else 0))
+                    if t == "Z" and r.chance(0.5):
+                        step = ("float", bits_of_float(r.choice([1.0, 1.5, 2.25])))
+                    elif t == "Z" and r.chance(0.3):
+                        step = ("cast", ("int", r.choice([1, 2])), "B")
+                else:
+                    b = r.choice([("int", r.below(4)), ("cast", ("int", r.below(4)), "B")])
+                    if r.chance(0.5):
+                        step = r.choice([("int", 1), ("cast", ("int", 1), "B"), ("int", 2)])
             self.push()
             self.bind(n, t, False)
             self.loop += 1
@@ -1124,6 +1152,8 @@ class Gen:
             params.append((self.fresh("p"), self.pick_type(0.5), self.r.chance(0.35) and self.feat("refs")))
         ret = "N" if self.r.chance(0.25) else self.pick_type(0.5)
         f = dict(name=name, params=params, ret=ret, body=[])
+        if self.feat("forward_decls") and self.r.chance(0.25):
+            f["forward"] = True
         saved = self.scopes
         self.scopes = [saved[0], Scope()]
         for n, t, ref in params:
